@@ -13,6 +13,9 @@ Proof. unfold convert. now rewrite orb_true_r. Qed.
 Theorem convert_single_underscore nc c : convert nc c US = US.
 Proof. unfold convert. cbn. reflexivity. Qed.
 
+Theorem convert_kept nc c name : keeps name = true -> convert nc c name = name.
+Proof. unfold convert. now intros ->. Qed.
+
 (* ---- split ---- *)
 Lemma split_ch_nonempty c s : split_ch c s <> [].
 Proof. induction s as [|x r IH]; cbn; [discriminate|]. destruct (Ascii.eqb x c); [discriminate|]. destruct (split_ch c r); discriminate. Qed.
@@ -74,11 +77,11 @@ Qed.
 
 (* 1. the converted name contains no underscore (unless the name is the single underscore) *)
 Theorem convert_no_underscore c name :
-  str_eqb name US = false -> no_us (convert true c name) = true.
+  keeps name = false -> no_us (convert true c name) = true.
 Proof.
   intros H1. unfold convert. rewrite H1. cbn [orb negb].
   set (parts := split_ch us _).
-  pose proof (split_us_no_us (rstrip_chars US (lstrip_chars US name))) as HP. fold parts in HP.
+  pose proof (split_us_no_us (cleaned_of name)) as HP. fold parts in HP.
   destruct c.
   - apply forallb_concat, caps_no_us, HP.
   - destruct parts as [|p0 ps]; [reflexivity|]. inversion HP as [|? ? H0 Hps]; subst. unfold no_us. rewrite forallb_app.
@@ -112,11 +115,12 @@ Lemma rstrip_us_remove s : remove_us (rstrip_chars US s) = remove_us s.
 Proof. unfold rstrip_chars. now rewrite remove_us_rev, lstrip_us_remove, remove_us_rev, rev_involutive. Qed.
 
 Theorem convert_keeps_letters c name :
-  str_eqb name US = false ->
+  keeps name = false ->
   map lower (convert true c name) = map lower (remove_us name).
 Proof.
   intros H1. unfold convert. rewrite H1. cbn [orb negb].
   rewrite <- (lstrip_us_remove name), <- (rstrip_us_remove (lstrip_chars US name)), <- concat_split_us.
+  fold (cleaned_of name).
   set (parts := split_ch us _).
   destruct c.
   - apply concat_caps_lower.
@@ -125,17 +129,17 @@ Qed.
 
 (* 3. class names start with a non-lower-case character *)
 Theorem convert_class_upper name c r :
-  str_eqb name US = false -> convert true true name = c :: r -> is_lower c = false.
+  keeps name = false -> convert true true name = c :: r -> is_lower c = false.
 Proof.
   intros H1. unfold convert. rewrite H1. cbn [orb negb].
-  generalize (split_ch us (rstrip_chars US (lstrip_chars US name))). intros l.
+  generalize (split_ch us (cleaned_of name)). intros l.
   induction l as [|p ps IH]; cbn; [discriminate|].
   destruct p as [|x xs]; cbn; [exact IH|]. intros E. inversion E; subst. apply upper_not_lower.
 Qed.
 
 (* 4. a character is only ever changed into its own upper case *)
 Theorem convert_length name c :
-  str_eqb name US = false -> List.length (convert true c name) = List.length (remove_us name).
+  keeps name = false -> List.length (convert true c name) = List.length (remove_us name).
 Proof.
   intros H. rewrite <- (map_length lower), (convert_keeps_letters c name H). apply map_length.
 Qed.
@@ -150,7 +154,7 @@ Proof. destruct c as [[] [] [] [] [] [] [] []]; reflexivity. Qed.
 Theorem convert_ident_chars nc c name : ascii_ident name = true -> ascii_ident (convert nc c name) = true.
 Proof.
   intros HA. destruct nc; [|now rewrite convert_off].
-  destruct (str_eqb name US) eqn:E; [unfold convert; now rewrite E|].
+  destruct (keeps name) eqn:E; [unfold convert; now rewrite E|].
   pose proof (convert_keeps_letters c name E) as HL.
   assert (H2 : ascii_ident (map lower (convert true c name)) = true).
   { rewrite HL. unfold ascii_ident. rewrite forallb_forall. intros x Hx. apply in_map_iff in Hx as (y & <- & Hy).
@@ -163,3 +167,65 @@ Theorem escape_keyword s : is_keyword s = true -> escape s = bq :: s ++ [bq].
 Proof. unfold escape. now intros ->. Qed.
 Theorem escape_other s : is_keyword s = false -> escape s = s.
 Proof. unfold escape. now intros ->. Qed.
+
+(* ---- the converted name is a legal identifier (non-empty, does not start with a digit) ---- *)
+Lemma lstrip_app_last l c : is_us c = false -> lstrip_chars US (l ++ [c]) = lstrip_chars US l ++ [c].
+Proof.
+  intro Hc. induction l as [|x r IH]; cbn.
+  - unfold is_us in Hc. now rewrite Hc.
+  - destruct (Ascii.eqb x us || false); [exact IH|reflexivity].
+Qed.
+
+Lemma rstrip_cons c r : is_us c = false -> rstrip_chars US (c :: r) = c :: rstrip_chars US r.
+Proof. intro Hc. unfold rstrip_chars. cbn [rev]. rewrite lstrip_app_last by exact Hc. rewrite rev_app_distr. reflexivity. Qed.
+
+Lemma lstrip_head s c r : lstrip_chars US s = c :: r -> is_us c = false.
+Proof.
+  induction s as [|x t IH]; cbn; [discriminate|]. rewrite orb_false_r. destruct (Ascii.eqb x us) eqn:E; [exact IH|].
+  intro H. inversion H; subst. exact E.
+Qed.
+
+Lemma lstrip_suffix_chars s : forall x, In x (lstrip_chars US s) -> In x s.
+Proof.
+  induction s as [|c r IH]; cbn; [tauto|]. destruct (Ascii.eqb c us || false); intros x Hx; [right; now apply IH|exact Hx].
+Qed.
+
+Lemma cleaned_head name c r : cleaned_of name = c :: r -> is_us c = false /\ In c name.
+Proof.
+  unfold cleaned_of. destruct (lstrip_chars US name) as [|x t] eqn:E.
+  - cbn. discriminate.
+  - pose proof (lstrip_head _ _ _ E) as Hx. rewrite rstrip_cons by exact Hx. intro H. inversion H; subst.
+    split; [exact Hx|]. apply lstrip_suffix_chars. rewrite E. now left.
+Qed.
+
+Lemma split_head c r : is_us c = false -> exists p ps, split_ch us (c :: r) = (c :: p) :: ps.
+Proof.
+  intro Hc. cbn. unfold is_us in Hc. rewrite Hc. destruct (split_ch us r) as [|p ps]; [exists [], []|exists p, ps]; reflexivity.
+Qed.
+
+Lemma start_upper c : is_ident_char c = true -> is_us c = false -> is_digit c = false -> is_ident_start (upper c) = true /\ is_ident_start c = true.
+Proof. destruct c as [[] [] [] [] [] [] [] []]; cbn; intros H1 H2 H3; try discriminate; split; reflexivity. Qed.
+
+Theorem convert_is_ident nc c name : is_ident name = true -> is_ident (convert nc c name) = true.
+Proof.
+  intro HI.
+  assert (HA : ascii_ident name = true).
+  { destruct name as [|x r]; [discriminate|]. cbn in HI |- *. apply andb_true_iff in HI as [H1 H2]. rewrite H2, andb_true_r.
+    unfold is_ident_char. now rewrite H1. }
+  destruct nc; [|now rewrite convert_off].
+  destruct (keeps name) eqn:EK; [now rewrite convert_kept|].
+  pose proof (convert_ident_chars true c name HA) as HC.
+  unfold keeps in EK. apply orb_false_iff in EK as [_ EK].
+  destruct (cleaned_of name) as [|c0 rest] eqn:ECl; [discriminate|].
+  destruct (cleaned_head _ _ _ ECl) as [Hus Hin].
+  assert (Hid : is_ident_char c0 = true) by (unfold ascii_ident in HA; rewrite forallb_forall in HA; auto).
+  destruct (start_upper c0 Hid Hus EK) as [HU HS].
+  destruct (split_head c0 rest Hus) as (p & ps & ESp).
+  assert (HF : exists tl, convert true c name = (if c then upper c0 else c0) :: tl).
+  { unfold convert, keeps. rewrite ECl, EK. 
+    replace (str_eqb name US) with false.
+    2:{ destruct (str_eqb name US) eqn:E; [|reflexivity]. apply str_eqb_eq in E. subst. cbn in ECl. discriminate. }
+    cbn [orb negb]. rewrite ESp. destruct c; cbn; eexists; reflexivity. }
+  destruct HF as (tl & EF). rewrite EF in HC |- *. cbn in HC |- *. apply andb_true_iff in HC as [_ HT]. rewrite HT, andb_true_r.
+  destruct c; assumption.
+Qed.
